@@ -1,9 +1,9 @@
 INIT GInit
 NEXT GNext
 CONSTANTS
- DrainBug = TRUE
- LinkCode = TRUE
- DupPathBug = TRUE
+ DrainBug = FALSE
+ LinkCode = FALSE
+ DupPathBug = FALSE
  Ids <- ThoroughIds
 INVARIANTS EmitCat Emit
 CHECK_DEADLOCK FALSE
